@@ -57,6 +57,12 @@ def body(case, ctx):
             ctx.known("KF-C02-ab127", "not-exact-to-degree", msg)
         else:
             ctx.fail("not-exact-to-degree", msg)
+    if want_size <= 2000:
+        # the same grid through the cache (filled, then hit) and through the size= route is the same quadrature
+        for route in ("cache-fill", "cache-hit", "size"):
+            g2 = AngularGrid(size=want_size, method=method, cache=False) if route == "size" else AngularGrid(degree=degree, method=method, cache=True)
+            same = g2.points.shape == g.points.shape and np.array_equal(g2.points, g.points) and np.array_equal(g2.weights, g.weights)
+            ctx.check(same and g2.degree == degree, "route-dependent-grid", f"{method} degree {degree}: grid via {route} differs from the cache=False grid")
     ctx.check(abs(wsum - 4 * np.pi) <= TOL * 4 or not (worst <= TOL), "weights-do-not-sum-to-4pi", f"{method} {degree}: sum w = {wsum!r}")
 
 
